@@ -47,6 +47,21 @@ Theorem safekeeper_sound_bytes :
 Proof. exact (@safekeeper_sound_bytes_lemma). Qed.
 Print Assumptions safekeeper_sound_bytes.
 
+(** Hence "error, or the new build": if no consumer of a run reported an error, every one of
+    them was served, byte for byte, what it reads on the signed (undamaged) old build - and
+    the patcher's output is a function of what its reads return. *)
+Theorem safekeeper_completed_run_is_exact :
+  forall (A H : Type) (bs c m : N) (hash : list A -> H) (heqb : H -> H -> bool)
+         (sa : list (list A * list A)) (steps : list (N * pattern)),
+    0 < c -> 0 < m -> bs = c * m ->
+    (forall a b, heqb (hash a) (hash b) = true -> a = b) ->
+    steps_ok bs sa steps ->
+    let results := run_steps bs c hash heqb Fixed (files_of bs hash sa) pool_empty steps in
+    Forall (fun res => snd res = Done) results ->
+    map (fun res => concat (fst res)) results = map (ideal_of bs c sa) steps.
+Proof. exact (@safekeeper_completed_run_is_exact_lemma). Qed.
+Print Assumptions safekeeper_completed_run_is_exact.
+
 (** An undamaged old build is never rejected: every consumer completes (and, by the theorem
     above, with the signed bytes), including the whole-file copy that reads up to EOF and a
     second copy of the same file. *)
